@@ -142,6 +142,25 @@ class FeatureMonitor(taps.Monitor):
                     ctx.fail("feature_changed_the_mask", cls=f)
             elif tuple(r.mask.shape) != tuple(new_shape):
                 ctx.fail("mask_does_not_have_the_new_size", cls=f)
+            else:
+                # rescaled, not replaced: where the source mask is uniform around the place an output pixel comes from, the output
+                # pixel has that value (a uniform source mask gives the same uniform mask)
+                ctx.tap("rescaled_mask_content", "calls"); ctx.tap("rescaled_mask_content", "checked")
+                om, nm = np.asarray(x.mask.pixels[0], dtype=bool), np.asarray(r.mask.pixels[0], dtype=bool)
+                ratio = old_shape / new_shape
+                w = np.ceil(ratio).astype(int) + 1
+                bad = 0
+                idx = np.argwhere(np.ones(nm.shape, dtype=bool))
+                if len(idx) > 400:
+                    idx = idx[np.random.default_rng(2).choice(len(idx), 400, replace=False)]
+                for j in idx:
+                    c = (j + 0.5) * ratio - 0.5
+                    sl = tuple(slice(max(0, int(np.floor(c[k])) - w[k]), min(om.shape[k], int(np.ceil(c[k])) + w[k] + 1)) for k in range(len(c)))
+                    nb = om[sl]
+                    if nb.size and ((nb.all() and not nm[tuple(j)]) or (not nb.any() and nm[tuple(j)])):
+                        bad += 1
+                if bad:
+                    ctx.fail("mask_not_rescaled_with_the_image", cls=f, mech="all_false_source" if not om.any() else "all_true_source" if om.all() else "mixed_source", n_bad=bad)
         ctx.see("feature_events", (f, cls, mkind, int(x.n_channels), str(x.pixels.dtype), same))
 
 
@@ -184,7 +203,9 @@ def w_features(ctx, rng, i):
     import menpo.feature as mf
     cls = ["Image", "MaskedImage"][i % 2]
     fname = FEATS[(i // 2) % len(FEATS)]
-    mk = ["all", "random", "halfplane", "block", "single"][(i // 18) % 5]
+    mk = ["all", "random", "halfplane", "block", "single", "none"][(i // 18) % 6]
+    if mk == "none" and fname == "compose":
+        mk = "block"          # (statistics of no pixels at all are outside the normalisers' quantifier)
     C = int(rng.integers(1, 5))
     dtype = [np.float64, np.float32][(i // 90) % 2 if rng.random() < 0.5 else 0]
     opts = {}
@@ -267,8 +288,12 @@ def w_normalisers(ctx, rng, i):
     kwargs = {"mode": mode, "error_on_divide_by_zero": err}
     custom = None
     if fname == "normalize":
-        which = int(rng.integers(0, 3))
-        custom = [None, lambda p, axis=None: np.std(p, axis=axis), lambda p, axis=None: (np.zeros(p.shape[0]) if axis is not None else np.array(0.0))][which]
+        which = int(rng.integers(0, 5))
+        # (documented: the statistic "expects a single parameter and an optional axis keyword": overall statistics may be plain
+        # one-argument functions)
+        custom = [None, lambda p, axis=None: np.std(p, axis=axis), lambda p, axis=None: (np.zeros(p.shape[0]) if axis is not None else np.array(0.0)),
+                  (lambda p: np.array([np.abs(p).max()])) if mode == "all" else (lambda p, axis=None: np.abs(p).max(axis=axis)),
+                  (lambda p: np.array([np.median(np.abs(p))])) if mode == "all" else (lambda p, axis=None: np.median(np.abs(p), axis=axis))][which]
         kwargs["scale_func"] = custom
     # ---- reference
     data = im.pixels.reshape(C, -1).astype(np.float64)
